@@ -11,6 +11,8 @@
 //!   ops:  `g <v>`  app: get_next_sqe_slot, on Some fill the slot's user_data with v
 //!         `f`      app: flush_submission_queue
 //!         `r`      app: get_next_cqe
+//!         `h`      app: read once more through the reference the last successful get_next_cqe returned (below call
+//!                  granularity: after any number of kernel steps)
 //!         `k <n>`  kernel: consume up to n published submissions (reads the SQE slots)
 //!         `p <v>*` kernel: post completions with these user_data values while the CQ has room
 //! Output: one token per op: `s<idx>`|`sn`, `f<count>`, `c<user_data>`|`cn`,
@@ -38,6 +40,8 @@ struct Sim {
     cq_entries: u32,
     sq_shift: u32,
     cq_shift: u32,
+    /// the reference the last successful `get_next_cqe` returned (kept as a raw pointer)
+    last_ref: Option<*const IoUringCompletionQueueEntry>,
 }
 
 fn rd(p: *const u32) -> u32 {
@@ -93,7 +97,7 @@ impl Sim {
             }
         };
         let ring = unsafe { IoUring::verif_from_raw_parts(Fd::try_new(0).unwrap(), f, parts) };
-        Some(Sim { ring: ManuallyDrop::new(ring), words, _array: array, sqes, cqes, sq_entries, cq_entries, sq_shift, cq_shift })
+        Some(Sim { ring: ManuallyDrop::new(ring), words, _array: array, sqes, cqes, sq_entries, cq_entries, sq_shift, cq_shift, last_ref: None })
     }
 
     fn get(&mut self, v: u64) -> String {
@@ -127,10 +131,20 @@ impl Sim {
     }
 
     fn reap(&mut self) -> String {
-        match catch_unwind(AssertUnwindSafe(|| self.ring.get_next_cqe().map(|c| c.0.user_data))) {
+        match catch_unwind(AssertUnwindSafe(|| self.ring.get_next_cqe().map(|c| (c as *const IoUringCompletionQueueEntry, c.0.user_data)))) {
             Err(_) => "panic".into(),
             Ok(None) => "cn".into(),
-            Ok(Some(u)) => format!("c{}", u),
+            Ok(Some((p, u))) => {
+                self.last_ref = Some(p);
+                format!("c{}", u)
+            }
+        }
+    }
+
+    fn reread(&mut self) -> String {
+        match self.last_ref {
+            None => "cn".into(),
+            Some(p) => format!("c{}", unsafe { core::ptr::read_volatile(p) }.0.user_data),
         }
     }
 
@@ -192,6 +206,7 @@ fn run_case(line: &str) -> String {
             ["g", v] => match v.parse::<u64>() { Ok(v) => sim.get(v), Err(_) => return "bad-op".into() },
             ["f"] => sim.flush(),
             ["r"] => sim.reap(),
+            ["h"] => sim.reread(),
             ["k", n] => match n.parse::<u32>() { Ok(n) => sim.consume(n), Err(_) => return "bad-op".into() },
             ["p", vs @ ..] => {
                 let mut vals = Vec::new();
